@@ -26,6 +26,7 @@ def run(ctx):
   ctx.rule('R17.3', 'no other body writes SCRIPT_PUBKEY_TO_OUTPOINT')
   ctx.rule('R17.4', 'push_script_pubkey for output vout takes tx.output[vout].script_pubkey; the fetched-input path pushes the fetched txout\'s script; pseudo-outputs push the empty script')
 
+  _r17_5(ctx)
   writes = T.writes()
   utxo = [(c, k) for c, k, t in writes if 'OUTPOINT_TO_UTXO_ENTRY' in t]
   spk = [(c, k) for c, k, t in writes if 'SCRIPT_PUBKEY_TO_OUTPOINT' in t]
@@ -96,3 +97,38 @@ def run(ctx):
                f'{sl.describe()}', where(b, c.line))
     else:
       ctx.ob('R17.4', b.n, 'pseudo-output pushes the empty script', empty_const and not sl.params, f'non-constant script for a pseudo-output: {sl.describe()}', where(b, c.line))
+
+
+def _r17_5(ctx):
+  """with the address index on, indexing starts at height 0 (every unspent output was seen by the indexer)"""
+  from ..panics import guard_strings
+  ctx.rule('R17.5', 'Index::open: first_index_height is 0 whenever index_addresses is set — every definition of first_index_height other than the constant 0 '
+           'lies on the false edge of the index_addresses test (outputs created below the first indexed height would be missing from the address index)')
+  b = ctx.body('R17.5', 'ord::index::Index::open_with_event_sender')
+  if b is None:
+    return
+  ls = b.locals_named('first_index_height')
+  if not ctx.anchor('R17.5', 'local first_index_height', len(ls) == 1, b.n):
+    return
+  defs = [d for d in b.defs().get(ls[0], []) if d['kind'] in ('assign', 'call') and not d['proj']]
+  ctx.floor('R17.5', 'definitions of first_index_height', len(defs), 3)
+  # the Index literal stores it
+  lits = [s for blk in b.blocks for s in blk['s'] if s.get('rv', {}).get('k') == 'agg' and norm(s['rv'].get('adt') or '') == 'ord::index::Index']
+  stored = False
+  for s in lits:
+    fo = dict(zip(s['rv']['fields'], s['rv']['ops']))
+    if 'first_index_height' in fo:
+      stored = any(o.kind == 'var' and o.name == 'first_index_height' or (o.local == ls[0]) for o in origins(b, fo['first_index_height'], named_terminal=True, depth=1))
+  ctx.ob('R17.5', b.n, 'Index.first_index_height <- first_index_height', stored, '', where(b, b.line))
+  n_zero = 0
+  for d in defs:
+    zero = d['kind'] == 'assign' and d['rv']['k'] == 'use' and b.const_of(d['rv']['o']) == 0
+    gs = guard_strings(b, d['bb'])
+    if zero:
+      n_zero += 1
+      continue
+    what = (d['call'].name.split('::')[-1] + '()') if d['kind'] == 'call' else str(b.const_of(d['rv'].get('o')) if d['rv']['k'] == 'use' else d['rv']['k'])
+    off = any(g.endswith('==False') and 'Statistic::IndexAddresses' in g for g in gs)
+    ctx.ob('R17.5', b.n, f'first_index_height = {what} only when the address index is off', off,
+           f'this start height is also used with --index-addresses: outputs created below it never enter SCRIPT_PUBKEY_TO_OUTPOINT (guards: {[g for g in gs if "Statistic::" in g]})', where(b, d['line']))
+  ctx.ob('R17.5', b.n, 'a definition first_index_height = 0 exists', n_zero >= 1, '', where(b, b.line), nontrivial=False)
